@@ -21,6 +21,9 @@ pub enum Instr {
     CSetAbs(&'static str, u64),
     Set(&'static str),
     Delete(&'static str),
+    /// pattern delete that removes exactly this key (`<key>` itself is the pattern: the other road to
+    /// "absent, version 0")
+    PDelete(&'static str),
 }
 
 pub struct CasScenario {
@@ -177,6 +180,19 @@ impl Scenario for CasScenario {
                             }
                         }
                     }
+                    Instr::PDelete(k) => {
+                        let res = core.wb.pdelete(k.to_string(), cid(c)).await;
+                        let km = model.entry(k).or_default();
+                        match (&res, &km.cur) {
+                            (Ok(kvs), Some((mv, _))) if kvs.len() == 1 && kvs[0].value == *mv => {
+                                km.cur = None;
+                                km.epoch += 1;
+                                class = "pdelete:ok".into();
+                            }
+                            (Ok(kvs), None) if kvs.is_empty() => class = "pdelete:absent".into(),
+                            _ => violation = Some(format!("pdelete({k}): impl={:?} reference={:?}", res.as_ref().map(|k| k.len()).map_err(|e| err_code(e)), km.cur)),
+                        }
+                    }
                     Instr::Delete(k) => {
                         let res = core.wb.delete(k.to_string(), cid(c)).await;
                         let km = model.entry(k).or_default();
@@ -288,6 +304,11 @@ pub fn scenarios(tier: &str) -> Vec<(String, CasScenario)> {
             ],
             setup_import: None,
         },
+    ));
+    // the key disappears through a pattern delete between compare-and-set cycles
+    v.push((
+        "pdelete".to_owned(),
+        CasScenario { programs: vec![cycles("x", 2), cycles("x", 1), vec![Instr::PDelete("x"), Instr::PDelete("x")]], setup_import: None },
     ));
     v.push((
         "u64-boundary".to_owned(),
